@@ -65,6 +65,10 @@ def step (st : Unit) (j : Json) : Except String (Unit × Json × List Fired) := 
       if ierr == "" then fired := fired ++ [{ name := "encoder_accepted_what_spec_rejects", detail := j }]
       pure ((), mkObj [("err", js ierr), ("bytes", js "")], fired)
     | some bz =>
+      -- the specification encodes this payload (every signal id of at most 32 bytes, every price the encoder's range holds):
+      -- an implementation that refuses it leaves on-chain data that can never be signed
+      if ierr != "" then
+        fired := fired ++ [{ name := "encodable_payload_rejected", detail := mkObj [("err", js ierr), ("op", js op)] }]
       let tick := enc == 2
       let dec : Json := if isTunnel then
           match decPacket (bz.drop 4) with
